@@ -80,16 +80,22 @@ Qed.
 
 (* ---------- storage widths ---------- *)
 Lemma std_width_ge w : w <= 64 -> w <= std_width w.
-Proof. unfold std_width. intros H. repeat destruct (_ <=? _) eqn:?; lia. Qed.
+Proof.
+  unfold std_width. intros H.
+  destruct (Nat.leb_spec w 8); [lia|]. destruct (Nat.leb_spec w 16); [lia|]. destruct (Nat.leb_spec w 32); lia.
+Qed.
 
 Lemma std_width_is_std w : is_std w = true -> std_width w = w.
-Proof. unfold is_std, std_width. intros H. repeat destruct (_ <=? _) eqn:?; lia. Qed.
+Proof.
+  unfold is_std, std_width. intros H.
+  destruct (Nat.leb_spec w 8); [lia|]. destruct (Nat.leb_spec w 16); [lia|]. destruct (Nat.leb_spec w 32); lia.
+Qed.
 
 Lemma std_width_small w : w <= 8 -> std_width w = 8.
 Proof. unfold std_width. intros H. destruct (Nat.leb_spec w 8); [reflexivity | lia]. Qed.
 
 Lemma std_width_ge8 w : 8 <= std_width w.
-Proof. unfold std_width. repeat destruct (_ <=? _); lia. Qed.
+Proof. unfold std_width. destruct (w <=? 8); [lia|]. destruct (w <=? 16); [lia|]. destruct (w <=? 32); lia. Qed.
 
 (* ---------- the storage image against the wire image ---------- *)
 Definition sb_len (p : prim) : nat :=
